@@ -2,6 +2,7 @@
 //@needs model_k
 // K-vset: VoiceSet::new validation (C19) and VoiceSet::weighted / which-weights (C10).
 //@harness name=voiceset_new_empty tier=quick label=proved props=C19
+//@harness name=hole_streams_all_eq_contract tier=quick label=bounded(1-2-streams) props=C19 timeout=600
 //@harness name=voiceset_new_single tier=quick label=bounded(1-voice) props=C19
 //@harness name=voiceset_new_global_metadata tier=thorough label=bounded(2-voices) props=C19 timeout=3000
 //@harness name=voiceset_new_stream_metadata tier=thorough label=bounded(2-voices,1-stream) props=C19 timeout=3000
@@ -179,4 +180,25 @@ fn weighted_identical_voices() {
     assert!(r.parameters[0].0 == m && r.parameters[0].1 == v && r.msd == Some(s));
     kani::cover!(true);
     std::mem::forget(vs);
+}
+
+struct ShimVoice { stream_models: Vec<StreamModels> }
+
+/// hole `streams_all_eq` of Verus unit voiceset (the zip/all chain of VoiceSet::new), pasted verbatim:
+/// true iff the per-stream metadata agree pairwise over the common prefix
+#[kani::proof]
+#[kani::unwind(5)]
+fn hole_streams_all_eq_contract() {
+    let a: (usize, usize, bool, bool, bool) = kani::any();
+    let b: (usize, usize, bool, bool, bool) = kani::any();
+    let c: (usize, bool) = kani::any();
+    let d: (usize, bool) = kani::any();
+    let voice = ShimVoice { stream_models: vec![stream(a.0, a.1, a.2, a.3, a.4), stream(c.0, 1, c.1, false, false)] };
+    let first = ShimVoice { stream_models: vec![stream(b.0, b.1, b.2, b.3, b.4), stream(d.0, 1, d.1, false, false)] };
+    let r: bool = /*@HOLE streams_all_eq@*/;
+    assert!(r == (a == b && c == d));
+    kani::cover!(r);
+    kani::cover!(a == b && c != d);
+    std::mem::forget(voice);
+    std::mem::forget(first);
 }
